@@ -92,7 +92,7 @@ def main():
     g = gen.G(chk.seed * 1000003 + 14)
     r = g.r
     events, meta = [], {}
-    n = chk.pick(1400, 40000)
+    n = chk.pick(1400, 16000)
     for i in range(n):
         p = r.choice([r.randint(1, 8), 10, 24, 53, 53, 100, r.randint(9, 200)])
         f = r.choice(["add", "sub", "mul", "div", "neg", "abs", "pow", "sqrt", "mul", "div"])
@@ -368,7 +368,7 @@ def function_events(chk, mpmath, g, start, n=None):
     r = g.r
     iv, mp, lm = mpmath.iv, mpmath.mp, mpmath.libmp
     events, meta = [], {}
-    for k in range(n or chk.pick(500, 6000)):
+    for k in range(n or chk.pick(500, 4000)):
         p = r.choice([10, 24, 53, 53, 100, r.randint(9, 160)])
         f = r.choice(ENCL_FUNCS + ENCL_FUNCS + REL_FUNCS)
         iv.prec = p
